@@ -68,7 +68,7 @@ fn draw_of_scalar(s: &Fr) -> Vec<u8> {
     w
 }
 
-fn srs_point(pp_bytes: &[u8], k: usize) -> Option<G1Affine> {
+pub fn srs_point(pp_bytes: &[u8], k: usize) -> Option<G1Affine> {
     let off = 240 + 48 * k;
     let mut b = [0u8; 48];
     b.copy_from_slice(pp_bytes.get(off..off + 48)?);
